@@ -41,6 +41,7 @@ Clauses(r) ==
     [] r.op = "bloom.insert" -> InsertClauses(r)
     [] r.op = "bloom.contains" -> ContainsClauses(r)
     [] r.op = "bloom.roundtrip" -> RoundTripClauses(r)
+    [] r.op = "bloom.serialize" -> RoundTripClauses(r)          \* wire bytes asked for, the object kept
     [] r.op = "bloom.murmur" -> MurmurClauses(r)
     [] OTHER -> << <<"unknown-op", FALSE>> >>
 NoFilter == [data |-> <<>>, k |-> 0, tweak |-> Zeros(4), flags |-> 0]
